@@ -340,11 +340,32 @@ def run(chk, prog):
     ret = [x for x in A.walk(gp["body"]) if x["k"] == "ReturnStmt"]
     rv = [d for st in body if st["k"] == "DeclStmt" for d in st["decls"] if d.get("k") == "VarDecl"]
     ok = len(mv) == 1 and len(ret) == 1 and len(rv) == 1 and (A.declref(ret[0]["c"][0]) or {}).get("decl") == rv[0]["decl"] and \
-        any(y is mv[0] or y["id"] == mv[0]["id"] for y in A.walk(rv[0]["init"]))
-    chk.check(ok, "R3", gp.where, "getPastModulation returns the whole past list (moved out)", "getPastModulation:move")
+        "init" in rv[0] and any(y is mv[0] or y["id"] == mv[0]["id"] for y in A.walk(rv[0]["init"]))
     gcf = Fl.CFG(gp)
+    # the other spelling of "hand over everything and leave nothing": a freshly constructed (empty) local swapped with the list
+    def is_swap_with(n, local_decl):
+        if n.get("k") == "CXXMemberCallExpr" and (n.get("callee") or "").endswith("::swap") and n.get("args"):
+            o_, a_ = A.call_object(n), n["args"][0]
+            return ((A.declref(o_) or {}).get("decl") == local_decl and A.this_field(a_) == "_past_modulation") or \
+                (A.this_field(o_) == "_past_modulation" and (A.declref(a_) or {}).get("decl") == local_decl)
+        if n.get("k") == "CallExpr" and (n.get("callee") or "") in ("std::swap", "swap") and len(n.get("args", [])) == 2:
+            ds_ = [(A.declref(a_) or {}).get("decl") for a_ in n["args"]]
+            fs_ = [A.this_field(a_) for a_ in n["args"]]
+            return local_decl in ds_ and "_past_modulation" in fs_
+        return False
+    swapped = False
+    if not ok and len(ret) == 1 and len(rv) == 1 and (A.declref(ret[0]["c"][0]) or {}).get("decl") == rv[0]["decl"]:
+        ini = rv[0].get("init")
+        empty_init = ini is None or (A.strip(ini, casts=False).get("k") in ("CXXConstructExpr", "CXXTemporaryObjectExpr") and
+                                     not [a_ for a_ in A.strip(ini, casts=False).get("args", []) if A.strip(a_, casts=False).get("k") != "CXXDefaultArgExpr"])
+        mn_s, mx_s = gcf.count_on_paths(lambda n, d_=rv[0]["decl"]: is_swap_with(n, d_))
+        other = [y for y in A.walk(gp["body"]) if y.get("k") in ("CXXMemberCallExpr", "CXXOperatorCallExpr") and (A.declref(A.call_object(y)) or {}).get("decl") == rv[0]["decl"]
+                 and not is_swap_with(y, rv[0]["decl"]) and not y.get("callee_const")] if False else []
+        swapped = empty_init and mn_s == 1 and mx_s == 1
+    chk.check(ok or swapped, "R3", gp.where, "getPastModulation returns the whole past list (moved out, or swapped with a fresh empty vector)", "getPastModulation:move")
     mn, mx = gcf.count_on_paths(on_field("::clear", "_past_modulation"))
-    chk.check(mn >= 1, "R3", gp.where, "getPastModulation leaves the past list empty on every path (clear: min %s)" % mn, "getPastModulation:clear")
+    chk.check(mn >= 1 or swapped, "R3", gp.where, "getPastModulation leaves the past list empty on every path (clear: min %s%s)" % (mn, "; swapped with an empty vector" if swapped else ""),
+              "getPastModulation:clear")
     sites = 0
     for f in prog.functions.values():
         if not f.get("body"):
